@@ -33,6 +33,7 @@ import (
 	"github.com/tsawler/tabula"
 	"github.com/tsawler/tabula/contentstream"
 	"github.com/tsawler/tabula/rag"
+	"github.com/tsawler/tabula/reader"
 	"github.com/tsawler/tabula/verifrt"
 	"verif/internal/harness"
 )
@@ -112,6 +113,47 @@ func extractorOps(doc string) []operation {
 	}
 }
 
+const repeatMarker = "RESULT-CHANGES-ON-REPETITION"
+
+// readerTwiceOp extracts every page twice through ONE opened reader and, through the public API, runs the
+// same terminal twice on extractors derived from one base; a second result that differs from the first is
+// marked in the output (the parent treats the marker as a failure of the operation itself).
+func readerTwiceOp(doc string) operation {
+	return operation{doc + ":Twice", func(dir string) string {
+		path := filepath.Join(dir, doc)
+		var out strings.Builder
+		r, err := reader.Open(path)
+		if err != nil {
+			return "open error: " + err.Error()
+		}
+		defer r.Close()
+		n, _ := r.PageCount()
+		for round := 0; round < 2; round++ {
+			for i := 0; i < n; i++ {
+				pg, err := r.GetPage(i)
+				if err != nil {
+					fmt.Fprintf(&out, "[%d:%v]", i, err)
+					continue
+				}
+				t1, e1 := r.ExtractText(pg)
+				t2, e2 := r.ExtractText(pg)
+				if t1 != t2 || fmt.Sprint(e1) != fmt.Sprint(e2) {
+					fmt.Fprintf(&out, "%s page %d: first %q %v, second %q %v\n", repeatMarker, i+1, t1, e1, t2, e2)
+				}
+				fmt.Fprintf(&out, "[%d:%q %v]", i, t1, e1)
+			}
+		}
+		base := tabula.Open(path)
+		a, _, ea := base.ExcludeHeadersAndFooters().Text()
+		b, _, eb := base.ExcludeHeadersAndFooters().Text()
+		if a != b || fmt.Sprint(ea) != fmt.Sprint(eb) {
+			fmt.Fprintf(&out, "%s Text(): first %q %v, second %q %v\n", repeatMarker, a, ea, b, eb)
+		}
+		fmt.Fprintf(&out, "%q %v", a, ea)
+		return out.String()
+	}}
+}
+
 func rawOp(name, src string) operation {
 	return operation{"raw:" + name, func(string) string {
 		ops, err := contentstream.NewParser([]byte(src)).Parse()
@@ -125,6 +167,9 @@ func operations() []operation {
 	var ops []operation
 	for _, d := range docNames() {
 		ops = append(ops, extractorOps(d)...)
+		if strings.HasSuffix(d, ".pdf") {
+			ops = append(ops, readerTwiceOp(d))
+		}
 	}
 	ops = append(ops,
 		rawOp("complete", "q 1 0 0 1 5 5 cm BT /F1 9 Tf (a) Tj ET Q"),
@@ -145,6 +190,7 @@ func operations() []operation {
 // ---- child protocol --------------------------------------------------------------------------------
 
 type childOut struct {
+	Marked     []bool    `json:"marked"`
 	Hashes     []string  `json:"hashes"`
 	States     []string  `json:"states"`
 	Outputs    []string  `json:"outputs,omitempty"`
@@ -174,6 +220,7 @@ func child(args []string) {
 			i, _ := strconv.Atoi(is)
 			o := guard(func() string { return ops[i].run(dir) })
 			out.Hashes = append(out.Hashes, h(o))
+			out.Marked = append(out.Marked, strings.Contains(o, repeatMarker))
 			out.States = append(out.States, h(verifrt.DumpState()))
 			if os.Getenv("VERIF_C03_VERBOSE") != "" {
 				out.Outputs = append(out.Outputs, o)
@@ -508,6 +555,19 @@ func run(e *harness.Env) {
 								break
 							}
 						}
+						marked := -1
+						for k := range seq {
+							if k < len(out.Marked) && out.Marked[k] {
+								marked = k
+							}
+						}
+						if marked >= 0 && bad < 0 {
+							det := fmt.Sprintf("operation %d (%s) repeats an extraction on one opened reader / one base extractor and gets a different result the second time", marked+1, ops[seq[marked]].name)
+							if v, err := verbose(dir, seq, marked); err == nil {
+								det += "\n" + v
+							}
+							e.Fail(desc, "result-changes-on-repetition", det, nil)
+						}
 						e.Add("transitions", int64(len(seq)))
 						e.Add("traces_validated_against_impl", 1)
 						for _, s := range out.States {
@@ -521,7 +581,7 @@ func run(e *harness.Env) {
 								det += "\n" + v
 							}
 							e.Fail(desc, "result-depends-on-preceding-calls", det, nil)
-						} else {
+						} else if marked < 0 {
 							e.Pass(desc, len(seq) > 1, fmt.Sprintf("hist:len=%d", len(seq)))
 						}
 					}
